@@ -171,6 +171,9 @@ type NTPCase struct {
 	ReportAt  []int   `json:"report_at"`
 	// ReportDelay: injected clock advance (ns) between the packet and the k-th report
 	ReportDelay []int64 `json:"report_delay,omitempty"`
+	// Async[k]: packet k is one whose presentation time differs from its decoding time (a B-frame, say): the sender
+	// must not use it to associate RTP and wall-clock time. Packet 0 is always a synchronisation point.
+	Async []bool `json:"async,omitempty"`
 }
 
 type fakeClock struct {
@@ -243,6 +246,8 @@ func runNTP(c NTPCase) (int, error) {
 	probed := 0
 	nrep := 0
 	var sent []assoc
+	var lastSync64 int64
+	var lastSyncClock time.Time
 	tol := time.Second/time.Duration(c.ClockRate) + 4*time.Nanosecond
 	for k := 0; k <= len(c.Steps); k++ {
 		if k > 0 {
@@ -256,7 +261,11 @@ func runNTP(c NTPCase) (int, error) {
 		off.Quo(off, big.NewInt(int64(c.ClockRate)))
 		wall := time.Unix(0, c.NTP0).Add(time.Duration(off.Int64()))
 		pkt := &rtp.Packet{Header: rtp.Header{Version: 2, PayloadType: 96, SequenceNumber: uint16(k), Timestamp: uint32(cur), SSRC: 7}, Payload: []byte{1, 2, 3}}
-		rs.ProcessPacket(pkt, wall, true)
+		isSync := !(k > 0 && k < len(c.Async) && c.Async[k])
+		rs.ProcessPacket(pkt, wall, isSync)
+		if isSync {
+			lastSync64, lastSyncClock = cur, clk.now()
+		}
 		sent = append(sent, assoc{uint32(cur), cur, wall})
 		if !reportAt[k] {
 			continue
@@ -287,11 +296,12 @@ func runNTP(c NTPCase) (int, error) {
 		}
 		rr.ProcessSenderReport(sr, clk.now())
 		// every packet within 2^31 ticks of the report maps back to the time the writer attached
-		delayTicks := int64(delay.Seconds()*float64(c.ClockRate)) + 2
+		// (the report extrapolates from the last synchronisation packet by the system time elapsed since then)
+		delayTicks := int64(clk.now().Sub(lastSyncClock).Seconds()*float64(c.ClockRate)) + 2
 		for j := len(sent) - 1; j >= 0 && j >= len(sent)-6; j-- {
 			a := sent[j]
 			// only comparable when the packet lies within the signed 32-bit window of the report's timestamp
-			dist := cur - a.t64
+			dist := lastSync64 - a.t64
 			if dist < 0 {
 				dist = -dist
 			}
